@@ -8,6 +8,8 @@ set -u
 SD="$(cd "$1" && pwd)"; shift
 export GOFLAGS=-mod=mod GOPROXY=off GOSUMDB=off GOTOOLCHAIN=local
 PROP="$(python3 -c "import json;print(json.load(open('$SD/meta.json'))['property'])")"
+# on the repaired tree some seeded changes surface under another property (see meta.json note)
+CHECK="$(python3 -c "import json;m=json.load(open('$SD/meta.json'));print(m.get('check_with',m['property']))")"
 WT="$(mktemp -d /tmp/seedwt.XXXXXX)"; rmdir "$WT"
 git -C /repo worktree add -q --detach "$WT" HEAD || exit 2
 cleanup() { git -C /repo worktree remove --force "$WT" >/dev/null 2>&1; rm -rf "$WT"; }
@@ -35,8 +37,8 @@ suite_ok=no; [ "$BASE" = "$WITH" ] && suite_ok=yes
 demo_ok=no; case "$without" in ok*) case "$with" in FAIL*|*FAIL*) demo_ok=yes;; esac;; esac
 echo "SEED $PROP confirm: suite_unchanged=$suite_ok demo_fails_with=$([[ "$with" == *FAIL* ]] && echo yes || echo no) demo_passes_without=$([[ "$without" == ok* ]] && echo yes || echo no)"
 [ "${SEEDCHECK_CONFIRM_ONLY:-}" = 1 ] && exit 0
-out="$(VERIF_REPO="$WT" /verif/simctl check "$PROP" --tier "${SEED_TIER:-quick}" "$@" 2>&1)"; rc=$?
+out="$(VERIF_REPO="$WT" /verif/simctl check "$CHECK" --tier "${SEED_TIER:-quick}" "$@" 2>&1)"; rc=$?
 echo "$out" | grep -E '^(VIOLATION|  clause|simh:)' | cut -c1-400
 # evidence/replays written by this run belong to the patched tree: restore the committed ones
-git -C /verif checkout -q -- "evidence/$PROP.json" 2>/dev/null
+git -C /verif checkout -q -- "evidence/$CHECK.json" 2>/dev/null
 case $rc in 1) echo "SEED $PROP: CAUGHT";; 0) echo "SEED $PROP: MISSED";; *) echo "SEED $PROP: check exit $rc (infrastructure)"; echo "$out" | tail -5;; esac
